@@ -116,38 +116,47 @@ def insertLexicon (db : Db) (l : Lexicon) : R (Db × Nat × Nat) := do
     return (db4, lexid, extid)
   | none => return (db3, lexid, lexid)
 
-/-- `_insert_synsets` (presupposed ILIs, synsets, proposed ILIs) -/
-def insertSynsets (db : Db) (l : Lexicon) (c : Ctx) : R Db := do
-  let mut db := db
-  let presup ← need "ili status" (lookupId db.ilistatuses "presupposed")
-  for ss in localSynsets l do
-    if ss.ili != "" && ss.ili != "in" then
-      if !(db.ilis.any (fun r => r.id == ss.ili)) then
-        let row : RIli := {rowid := nextId (db.ilis.map (·.rowid)), id := ss.ili, status := presup, definition := ss.iliDef.map (·.text), md := ss.iliDef.bind (·.md)}
-        db := { db with ilis := db.ilis ++ [row] }
-  for ss in localSynsets l do
-    let pos ← need "KeyError: partOfSpeech" ss.pos
-    let ili := if ss.ili != "" && ss.ili != "in" then (db.ilis.find? (fun r => r.id == ss.ili)).map (·.rowid) else none
-    let lf := match ss.lexfile with | some f => lookupId db.lexfiles f | none => none
-    let row : RSynset := {rowid := nextId (db.synsets.map (·.rowid)), id := ss.id, lex := c.lexid, ili := ili, pos := pos, lexicalized := boolOr ss.lexicalized true, lexfile := lf, md := ss.md}
-    db := { db with synsets := db.synsets ++ [row] }
-  for ss in localSynsets l do
-    if ss.ili == "in" then
-      let sr ← need "NOT NULL proposed_ilis.synset_rowid" (synsetRow db ss.id c.lexid)
-      if db.pilis.any (fun r => r.synset == sr) then throw "UNIQUE proposed_ilis(synset_rowid)"
-      let row : RPIli := {rowid := nextId (db.pilis.map (·.rowid)), synset := sr, definition := ss.iliDef.map (·.text), md := ss.iliDef.bind (·.md)}
-      db := { db with pilis := db.pilis ++ [row] }
-  return db
+/-- `_insert_synsets`, first pass: `INSERT OR IGNORE` of a presupposed ILI for every synset that names one -/
+def presupStep (presup : Nat) (db : Db) (ss : Synset) : R Db :=
+  if ss.ili != "" && ss.ili != "in" then
+    if !(db.ilis.any (fun r => r.id == ss.ili)) then
+      let row : RIli := {rowid := nextId (db.ilis.map (·.rowid)), id := ss.ili, status := presup, definition := ss.iliDef.map (·.text), md := ss.iliDef.bind (·.md)}
+      .ok { db with ilis := db.ilis ++ [row] }
+    else .ok db
+  else .ok db
 
-/-- `_insert_entries` -/
-def insertEntries (db : Db) (l : Lexicon) (c : Ctx) : R Db := do
-  let mut db := db
-  for e in localEntries l do
-    let lem ← need "KeyError: lemma" e.lemma
-    if (entryRow db e.id c.lexid).isSome then throw "UNIQUE entries(id, lexicon_rowid)"
-    let row : REntry := {rowid := nextId (db.entries.map (·.rowid)), id := e.id, lex := c.lexid, pos := lem.pos, md := e.md}
-    db := { db with entries := db.entries ++ [row] }
-  return db
+/-- second pass: the synset rows -/
+def synsetStep (c : Ctx) (db : Db) (ss : Synset) : R Db := do
+  let pos ← need "KeyError: partOfSpeech" ss.pos
+  let ili := if ss.ili != "" && ss.ili != "in" then (db.ilis.find? (fun r => r.id == ss.ili)).map (·.rowid) else none
+  let lf := match ss.lexfile with | some f => lookupId db.lexfiles f | none => none
+  let row : RSynset := {rowid := nextId (db.synsets.map (·.rowid)), id := ss.id, lex := c.lexid, ili := ili, pos := pos, lexicalized := boolOr ss.lexicalized true, lexfile := lf, md := ss.md}
+  return { db with synsets := db.synsets ++ [row] }
+
+/-- third pass: proposed ILIs -/
+def piliStep (c : Ctx) (db : Db) (ss : Synset) : R Db :=
+  if ss.ili == "in" then do
+    let sr ← need "NOT NULL proposed_ilis.synset_rowid" (synsetRow db ss.id c.lexid)
+    if db.pilis.any (fun r => r.synset == sr) then throw "UNIQUE proposed_ilis(synset_rowid)"
+    let row : RPIli := {rowid := nextId (db.pilis.map (·.rowid)), synset := sr, definition := ss.iliDef.map (·.text), md := ss.iliDef.bind (·.md)}
+    return { db with pilis := db.pilis ++ [row] }
+  else .ok db
+
+/-- `_insert_synsets` (presupposed ILIs, synsets, proposed ILIs): three loops over the local synsets -/
+def insertSynsets (db : Db) (l : Lexicon) (c : Ctx) : R Db := do
+  let presup ← need "ili status" (lookupId db.ilistatuses "presupposed")
+  let db1 ← (localSynsets l).foldlM (presupStep presup) db
+  let db2 ← (localSynsets l).foldlM (synsetStep c) db1
+  (localSynsets l).foldlM (piliStep c) db2
+
+/-- `_insert_entries`: one row per non-external entry -/
+def entryStep (c : Ctx) (db : Db) (e : Entry) : R Db := do
+  let lem ← need "KeyError: lemma" e.lemma
+  if (entryRow db e.id c.lexid).isSome then throw "UNIQUE entries(id, lexicon_rowid)"
+  let row : REntry := {rowid := nextId (db.entries.map (·.rowid)), id := e.id, lex := c.lexid, pos := lem.pos, md := e.md}
+  return { db with entries := db.entries ++ [row] }
+
+def insertEntries (db : Db) (l : Lexicon) (c : Ctx) : R Db := (localEntries l).foldlM (entryStep c) db
 
 def addForm (db : Db) (norm : String → String) (lexid : Nat) (entry : Nat) (id : Option String)
     (form : String) (script : Option String) (rank : Nat) : R Db := do
@@ -158,20 +167,25 @@ def addForm (db : Db) (norm : String → String) (lexid : Nat) (entry : Nat) (id
   let row : RForm := { rowid := nextId (db.forms.map (·.rowid)), id := id, lex := lexid, entry := entry, form := form, norm := (if n != form then some n else none), script := script, rank := rank }
   return { db with forms := db.forms ++ [row] }
 
-/-- `_insert_forms` -/
-def insertForms (db : Db) (norm : String → String) (l : Lexicon) (c : Ctx) : R Db := do
-  let mut db := db
-  for e in l.entries do
-    let lid := c.lid e.id
-    if !e.external then
+/-- one `<Form>` of an entry (rank = position + 1); external forms are not inserted -/
+def formStep (norm : String → String) (c : Ctx) (e : Entry) (db : Db) (fi : Form × Nat) : R Db :=
+  if fi.1.external then .ok db
+  else do
+    let er ← need "NOT NULL forms.entry_rowid" (entryRow db e.id (c.lid e.id))
+    addForm db norm c.lexid er fi.1.id fi.1.form fi.1.script (fi.2 + 1)
+
+/-- the lemma (rank 0, non-external entries only) and the further forms of one entry -/
+def entryFormsStep (norm : String → String) (c : Ctx) (db : Db) (e : Entry) : R Db := do
+  let db1 ← if !e.external then do
       let lem ← need "KeyError: lemma" e.lemma
-      let er ← need "NOT NULL forms.entry_rowid" (entryRow db e.id lid)
-      db ← addForm db norm c.lexid er none lem.form lem.script 0
-    for (f, i) in e.forms.zipIdx do
-      if f.external then continue
-      let er ← need "NOT NULL forms.entry_rowid" (entryRow db e.id lid)
-      db ← addForm db norm c.lexid er f.id f.form f.script (i + 1)
-  return db
+      let er ← need "NOT NULL forms.entry_rowid" (entryRow db e.id (c.lid e.id))
+      addForm db norm c.lexid er none lem.form lem.script 0
+    else pure db
+  e.forms.zipIdx.foldlM (formStep norm c e) db1
+
+/-- `_insert_forms` -/
+def insertForms (db : Db) (norm : String → String) (l : Lexicon) (c : Ctx) : R Db :=
+  l.entries.foldlM (entryFormsStep norm c) db
 
 /-- `_insert_pronunciations` and `_insert_tags` -/
 def insertPronsTags (db : Db) (l : Lexicon) (c : Ctx) : R Db := do
@@ -210,31 +224,33 @@ def memberRank (l : Lexicon) (defaultRank : Nat) (sid : String) : Nat :=
   let hits := (localSynsets l).filterMap (fun ss => (ss.members.zipIdx.filter (fun (m, _) => m == sid)).getLast?.map (·.2))
   hits.getLast?.getD defaultRank
 
+/-- one local sense of an entry (entry rank = position among the entry's local senses) -/
+def senseStep (l : Lexicon) (c : Ctx) (defaultRank : Nat) (e : Entry) (db : Db) (si : Sense × Nat) : R Db := do
+  let er ← need "NOT NULL senses.entry_rowid" (entryRow db e.id (c.lid e.id))
+  let sr ← need "NOT NULL senses.synset_rowid" (synsetRow db si.1.synset (c.lid si.1.synset))
+  let row : RSense := {rowid := nextId (db.senses.map (·.rowid)), id := si.1.id, lex := c.lexid, entry := er, erank := si.2, synset := sr, srank := memberRank l defaultRank si.1.id, lexicalized := boolOr si.1.lexicalized true, md := si.1.md}
+  return { db with senses := db.senses ++ [row] }
+
+def adjStep (c : Ctx) (db : Db) (s : Sense) : R Db :=
+  match s.adjposition with
+  | some a =>
+    if a != "" then do
+      let sr ← need "NOT NULL adjpositions.sense_rowid" (senseRow db s.id (c.lid s.id))
+      let row : RAdj := {sense := sr, adjposition := a}
+      return { db with adjs := db.adjs ++ [row] }
+    else .ok db
+  | none => .ok db
+
+def countStep (c : Ctx) (s : Sense) (db : Db) (cnt : Count) : R Db := do
+  let sr ← need "NOT NULL counts.sense_rowid" (senseRow db s.id (c.lid s.id))
+  let row : RCount := {rowid := nextId (db.counts.map (·.rowid)), lex := c.lexid, sense := sr, value := cnt.value, md := cnt.md}
+  return { db with counts := db.counts ++ [row] }
+
 /-- `_insert_senses`, `_insert_adjpositions`, `_insert_counts` -/
 def insertSenses (db : Db) (l : Lexicon) (c : Ctx) (defaultRank : Nat) : R Db := do
-  let mut db := db
-  for e in l.entries do
-    for (s, i) in (localSenses e).zipIdx do
-      let er ← need "NOT NULL senses.entry_rowid" (entryRow db e.id (c.lid e.id))
-      let sr ← need "NOT NULL senses.synset_rowid" (synsetRow db s.synset (c.lid s.synset))
-      let row : RSense := {rowid := nextId (db.senses.map (·.rowid)), id := s.id, lex := c.lexid, entry := er, erank := i, synset := sr, srank := memberRank l defaultRank s.id, lexicalized := boolOr s.lexicalized true, md := s.md}
-      db := { db with senses := db.senses ++ [row] }
-  for e in l.entries do
-    for s in localSenses e do
-      match s.adjposition with
-      | some a =>
-        if a != "" then
-          let sr ← need "NOT NULL adjpositions.sense_rowid" (senseRow db s.id (c.lid s.id))
-          let row : RAdj := {sense := sr, adjposition := a}
-          db := { db with adjs := db.adjs ++ [row] }
-      | none => pure ()
-  for e in l.entries do
-    for s in e.senses do
-      for cnt in s.counts do
-        let sr ← need "NOT NULL counts.sense_rowid" (senseRow db s.id (c.lid s.id))
-        let row : RCount := {rowid := nextId (db.counts.map (·.rowid)), lex := c.lexid, sense := sr, value := cnt.value, md := cnt.md}
-        db := { db with counts := db.counts ++ [row] }
-  return db
+  let db1 ← l.entries.foldlM (fun db e => (localSenses e).zipIdx.foldlM (senseStep l c defaultRank e) db) db
+  let db2 ← l.entries.foldlM (fun db e => (localSenses e).foldlM (adjStep c) db) db1
+  l.entries.foldlM (fun db e => e.senses.foldlM (fun db s => s.counts.foldlM (countStep c s) db) db) db2
 
 /-- `_insert_syntactic_behaviours` -/
 def insertSbs (db : Db) (sbs : List Sb) (c : Ctx) : R Db := do
